@@ -46,6 +46,8 @@ def check_cov(case, stats):
   est = E.build('Covariance', {})
   r = call('C09/Covariance/fit', est.fit, X)
   M = est.get_mahalanobis_matrix()
+  if not np.isfinite(M).all():
+    raise Violation('C09/Covariance/non-finite', 'M contains NaN/inf')
   C = O.cov_two_pass(X)
   w = np.linalg.eigvalsh(C)
   lmax = max(w.max(), 1e-300)
@@ -108,6 +110,8 @@ def check_rca(case, stats):
   kk = d if k is None else k
   if L.shape != (kk, d):
     raise Violation('C09/RCA/shape', '%s' % (L.shape,))
+  if not np.isfinite(L).all():
+    raise Violation('C09/RCA/non-finite', 'components_ contains NaN/inf although the within-chunk covariance is full rank')
   condC = wC.max() / wC.min()
   W = L.dot(C).dot(L.T)
   if np.abs(W - np.eye(kk)).max() > 1e-8 * condC:
@@ -166,6 +170,8 @@ def check_lfda(case, stats):
   L = np.asarray(est.components_, dtype=float)
   if L.shape != (kk, d):
     raise Violation('C09/LFDA/shape', '%s' % (L.shape,))
+  if not np.isfinite(L).all():
+    raise Violation('C09/LFDA/non-finite', 'components_ contains NaN/inf')
   Sw, Sb = O.lfda_scatter(X, y, keff)
   ref, _ = O.gen_eigvals(Sb, Sw)
   small_class = min(case['desc']['sizes']) <= keff
